@@ -75,7 +75,7 @@ Print Assumptions C12_center_split_is_code.
 (* ---------- the format specification  [string_format[:ansi_format]]  ----------
    string_format = [[fill][+|-]align][width]; the recognisers of Model/FormatSpec.v stand for the
    repository's four regular expressions (tied to Python's re by the correspondence check on generated
-   specs; newline-free specs). *)
+   specs, newline fills and trailing newlines included since the repairs F29 / F30). *)
 
 (* printer / recogniser round trip for every fill character (':', '+', '-', '<', '>', '^' and digits
    included), flag, alignment and width; the documented reading is greedy: without a fill character a
